@@ -326,6 +326,17 @@ def _logcdf(case, ctx, g):
         fd = (log_normal_cdf(zz + h) - log_normal_cdf(zz - h)) / (2 * h) * up
     relfd = ((gr - fd).abs()[away] / (2e-3 * fd.abs()[away] + 1e-6)).max()
     ctx.expect("logcdf_backward_fd", bool(relfd <= 1), f"gradient vs finite differences of the forward: max error / (2e-3 |fd| + 1e-6) = {float(relfd):.3e}")
+    # far lower tail, double and single precision: the derivative phi/Phi ~ -z there; its relative accuracy is the statement's
+    # 2e-3 whatever the magnitude of z and the dtype (nothing may cancel catastrophically)
+    for dt, zmax in ((torch.float64, 1e6), (torch.float32, 3e3)):
+        zt = (-torch.logspace(1.5, float(torch.log10(torch.tensor(zmax))), 25, dtype=torch.float64)).to(dt).requires_grad_(True)
+        ot = log_normal_cdf(zt)
+        (gt,) = torch.autograd.grad(ot.sum(), zt)
+        reft = torch.tensor([float(mp.npdf(mp.mpf(float(t))) / mp.ncdf(mp.mpf(float(t)))) for t in zt.detach().double().tolist()])
+        relt = ((gt.double() - reft).abs() / reft.abs()).max()
+        ctx.expect("logcdf_backward", bool(torch.isfinite(gt).all()) and bool(relt <= 2e-3), f"far tail ({str(dt)[6:]}, z down to {-zmax:g}): max relative error of the gradient {float(relt):.3e}", region="far_tail", dtype=str(dt))
+        reff = torch.tensor([float(mp.log(mp.ncdf(mp.mpf(float(t))))) for t in zt.detach().double().tolist()])
+        ctx.expect("logcdf_value_far_tail", bool(((ot.double().detach() - reff).abs() <= 2e-3 + 2e-6 * reff.abs() * (1 if dt == torch.float32 else 1e-3)).all()), f"far tail ({str(dt)[6:]}): log Phi deviates by {float((ot.double().detach() - reff).abs().max()):.3e}", region="far_tail", dtype=str(dt))
     ctx.cell({k: v for k, v in case.items() if k != "seed"})
 
 
@@ -371,14 +382,18 @@ def _natural(case, ctx, g):
     ctx.cell({k: v for k, v in case.items() if k != "seed"})
 
 
-def _expectation_grad(mu, S, g_mu, g_L):
-    """gradient of <g_mu, mu(eta)> + <g_L, L(eta)> w.r.t. the expectation parameters eta1 = mu, eta2 = S + mu mu^T (eta2-gradient symmetrised)"""
+def _expectation_grad(mu, S, g_mu, g_L, colsign=None):
+    """gradient of <g_mu, mu(eta)> + <g_L, L(eta)> w.r.t. the expectation parameters eta1 = mu, eta2 = S + mu mu^T (eta2-gradient
+    symmetrised). L(eta) is the lower-triangular factor of S on the branch of the current state: the Cholesky factor with its
+    columns multiplied by `colsign` (+-1; all +1 when the factor has a positive diagonal)"""
     import torch
 
     eta1 = mu.clone().requires_grad_(True)
     eta2 = (S + mu.unsqueeze(-1) * mu.unsqueeze(-2)).clone().requires_grad_(True)
     S_e = eta2 - eta1.unsqueeze(-1) * eta1.unsqueeze(-2)
     L_e = torch.linalg.cholesky((S_e + S_e.transpose(-1, -2)) / 2)
+    if colsign is not None:
+        L_e = L_e * colsign.unsqueeze(-2)
     r1, r2 = torch.autograd.grad([eta1, L_e], [eta1, eta2], [g_mu, g_L])
     return r1, (r2 + r2.transpose(-1, -2)) / 2
 
@@ -390,7 +405,9 @@ def _tril(case, ctx, g):
     from vf import util
 
     b, M = case["batch"], case["M"]
-    T = (torch.tril(util.randn(g, *b, M, M)) * 0.4 + 2 * torch.eye(M)).requires_grad_(True)
+    # (a factor with negative diagonal entries is a valid state: the precision is T^T T; the library's own test builds such states)
+    sg = (util.rand(g, *b, M) < (0.4 if case["seed"] % 2 else 0.0)).double() * -2 + 1
+    T = (torch.tril(util.randn(g, *b, M, M)) * 0.4 + torch.diag_embed(2 * sg)).requires_grad_(True)
     t1 = util.randn(g, *b, M).requires_grad_(True)
     with torch.autograd.set_detect_anomaly(True):
         mu, L = _TrilNaturalToMuVarSqrt.apply(t1, T)
@@ -402,7 +419,7 @@ def _tril(case, ctx, g):
         d1, dT = torch.autograd.grad([mu, L], [t1, T], [g_mu, g_L], retain_graph=True)
         e1, eT = torch.autograd.grad([mu, L], [t1, T], [g_mu, g_L])
         ctx.expect("backward_repeatable", bool(torch.equal(d1, e1)) and bool(torch.equal(dT, eT)), "_TrilNaturalToMuVarSqrt: a second backward through the same graph returned another gradient", function="trilnatural")
-    r1, r2 = _expectation_grad(mu.detach(), Sref, g_mu, g_L)
+    r1, r2 = _expectation_grad(mu.detach(), Sref, g_mu, g_L, colsign=sg)
     ctx.close("tril_natural_backward", d1, r1, (1e-8, 1e-8), cls="tril:eta1", batch=b)
     # the matrix part: the natural-gradient direction r2 (a perturbation of theta_mat = -1/2 T^T T) pushed forward through the chart
     # T(theta) = inv(chol(inv(-2 theta)))  (documented in the backward's docstring): directional derivative by autograd jvp
@@ -410,7 +427,8 @@ def _tril(case, ctx, g):
 
     def chart(th):
         Bm = torch.linalg.inv(-2.0 * th)
-        return torch.linalg.inv(torch.linalg.cholesky((Bm + Bm.transpose(-1, -2)) / 2))
+        # (branch of the current state: rows of the positive-diagonal factor carry the signs of the state's diagonal)
+        return sg.unsqueeze(-1) * torch.linalg.inv(torch.linalg.cholesky((Bm + Bm.transpose(-1, -2)) / 2))
 
     _, jv = torch.autograd.functional.jvp(chart, (theta,), (r2,))
     ctx.close("tril_natural_backward", dT, jv, (1e-7, 1e-7), cls="tril:tril_mat", batch=b)
@@ -423,7 +441,7 @@ def _tril(case, ctx, g):
         gL_ = None if which == "only_mu" else g_L
         obj_ = (0 if gm_ is None else (mu_ * gm_).sum()) + (0 if gL_ is None else (L_ * gL_).sum())
         (gv_,) = torch.autograd.grad(obj_, [b1], allow_unused=True)
-        q1, _ = _expectation_grad(mu.detach(), Sref, torch.zeros_like(g_mu) if gm_ is None else gm_, torch.zeros_like(g_L) if gL_ is None else gL_)
+        q1, _ = _expectation_grad(mu.detach(), Sref, torch.zeros_like(g_mu) if gm_ is None else gm_, torch.zeros_like(g_L) if gL_ is None else gL_, colsign=sg)
         ctx.close("tril_natural_backward", torch.zeros_like(q1) if gv_ is None else gv_, q1, (1e-8, 1e-8), cls=f"tril:eta1:{which}", batch=b, variant=which)
     ctx.cell({k: v for k, v in case.items() if k != "seed"})
 
